@@ -24,7 +24,8 @@ EnumA == [name |-> "Ea", items |-> <<Item("Xa", 0), Item("Xb", 1)>>]
 EnumB == [name |-> "Eb", items |-> <<Item("Ya", 0), Item("Yb", 2)>>]
 EnumC == [name |-> "Ec", items |-> <<Item("Za", 1), Item("Zb", 5), Item("Zc", 3)>>]
 EnumD == [name |-> "Ed", items |-> <<Item("Wa", 17), Item("Wb", 4)>>]
-Enums == <<EnumA, EnumB, EnumC, EnumD>>
+EnumZ == [name |-> "Ez", items |-> <<Item("Qa", 0)>>]          \* a single enumerator 0: still one bit
+Enums == <<EnumA, EnumB, EnumC, EnumD, EnumZ>>
 
 Field(n, id, t, gd) == [name |-> n, id |-> id, type |-> t, gd |-> gd]
 
@@ -89,7 +90,7 @@ FieldVals(S, fs, d) ==
 
 (* ------------------------------------------------------------- type pools *)
 LeafPool == { U(1), U(3), U(8), U(13), U(64), I(1), I(3), I(8), I(64), F32, F64, Str,
-              En("Ea"), En("Eb"), En("Ec"), En("Ed") }
+              En("Ea"), En("Eb"), En("Ec"), En("Ed"), En("Ez") }
 InnerT   == St("Sin")
 OnceOver(T) == T \cup {Arr(t, 2) : t \in T} \cup {Dyn(t) : t \in T} \cup {Opt(t) : t \in T}
 TypePool == OnceOver(LeafPool) \cup {InnerT, Arr(InnerT, 2), Dyn(InnerT), Opt(InnerT)}
